@@ -11,8 +11,24 @@ import astb
 _PARSE_MEMO = {}
 
 
+_ENGINE_HASH = []
+
+
+def _engine_hash():
+    """hash of the interpreter's own sources: a cached parse result is only as good as the engine that produced it"""
+    if not _ENGINE_HASH:
+        h = hashlib.sha256()
+        d = os.path.join(os.path.dirname(os.path.abspath(__file__)), 'mirsym')
+        for fn in sorted(os.listdir(d)):
+            if fn.endswith('.py'):
+                h.update(open(os.path.join(d, fn), 'rb').read())
+        _ENGINE_HASH.append(h.hexdigest())
+    return _ENGINE_HASH[0]
+
+
 def _dep_hash(prog, names):
     h = hashlib.sha256()
+    h.update(_engine_hash().encode())
     for n in names:
         f = prog.funcs.get(n) or prog.consts.get(n)
         h.update(n.encode())
@@ -41,7 +57,7 @@ def parse_program(ctx, text, comment_map=False):
                 return ent['value']
         except Exception:
             pass
-    sub = interp.Ctx(prog, fuel=10_000_000_000)
+    sub = interp.Ctx(prog, fuel=getattr(ctx, 'parse_fuel', 10_000_000_000))
     it = sub.call('OffsetStrIter::new', [text])
     real = prog.funcs['parse']
     if comment_map:
